@@ -364,12 +364,16 @@ class C11(Machine):
                         out[f'{which}/{s}/{f}'] = None if v is None else \
                             ahash(v.field)
                         if v is not None:
-                            info = sim._dict_get(which + '_info', s, f)
-                            out[f'{which}/{s}/{f}/info'] = None if info is \
-                                None else [int(info['exit']),
-                                           int(info['it_mg']),
-                                           int(info['it_ssl']),
-                                           repr(float(info['abs_error']))]
+                            try:
+                                info = sim._dict_get(which + '_info', s, f)
+                                out[f'{which}/{s}/{f}/info'] = None if info \
+                                    is None else [
+                                        int(info['exit']), int(info['it_mg']),
+                                        int(info['it_ssl']),
+                                        repr(float(info['abs_error']))]
+                            except Exception as e:      # noqa (stale file)
+                                out[f'{which}/{s}/{f}/info'] = \
+                                    'ERR:' + type(e).__name__
         return out
 
     def _step(self, ctx, st, op):
@@ -379,7 +383,13 @@ class C11(Machine):
         pre = self._snapshot(sim)
         if kind == 'clean_compute':
             st['direct'].clear()      # fields are recomputed from scratch
+            if st.get('tainted') and 'jvec' in sim.data:
+                # clean() keeps data['jvec']: what was computed while the
+                # object was tainted stays incomparable until the next jvec
+                st.setdefault('skip', set()).add('jvecdata')
             st['tainted'] = False
+        if kind == 'jvec' and not st.get('tainted'):
+            st.setdefault('skip', set()).discard('jvecdata')
         # decoy files: what a crashed earlier run could have left behind
         for d in op.get('decoys', []):
             if cfg['file_dir']:
@@ -520,7 +530,7 @@ class C11(Machine):
                 quantity=kind, op=kind)
         a, b = self._snapshot(sim), self._snapshot(ref)
         for k in sorted(set(a) | set(b)):
-            if k.startswith('_'):
+            if k.startswith('_') or k in st.get('skip', ()):
                 continue
             if a.get(k) != b.get(k):
                 raise Violation(
@@ -580,7 +590,17 @@ class C11(Machine):
                 key = (s, f)
                 if direct.get(key, {}).get('seen') == h:
                     continue      # unchanged since last verified
-                info = sim._dict_get('efield_info', s, f)
+                try:
+                    info = sim._dict_get('efield_info', s, f)
+                except Exception:      # noqa - incomplete file (tainted)
+                    info = None
+                if info is None or 'exit' not in info:
+                    if st.get('tainted'):
+                        continue
+                    raise Violation('slot_attribution',
+                                    f'slot ({s},{f}) holds a field but no '
+                                    f'solver info', quantity='efield_info',
+                                    op=kind)
                 grid = sim.get_grid(s, f)
                 model = sim.model.interpolate_to_grid(grid)
                 if st.get('tainted'):
@@ -621,17 +641,25 @@ class C11(Machine):
         import emg3d
         srcs, freqs = sim.survey.sources, sim.survey.frequencies
         # converged: must satisfy its own system (independent operator)
-        if int(info['exit']) == 0:
+        if int(info.get('exit', 1)) == 0:
+            # Attribution, not certification: a field that belongs to
+            # another task misses its own system by O(||s||), whereas "is
+            # the solver's success true?" is property C01's business (and a
+            # source in an outermost cell of the computational grid is
+            # outside C01's quantifier).  Free edges only; gross threshold.
             sf = emg3d.get_source_field(grid, srcs[s], freqs[f])
-            r, n = oracle.residual_norm(grid, model, sf.field, ef.field,
-                                        sf.sval)
-            if not r <= sim.tol_forward * n * 1.5:
+            A = oracle.operator(grid, model, sf.sval)
+            mask = oracle.interior_mask(grid.shape_cells)
+            r = float(np.linalg.norm((sf.field - A @ ef.field)[mask]))
+            n = float(np.linalg.norm(sf.field))
+            if not r <= 0.3 * n:
                 raise Violation(
                     'slot_attribution',
                     f'slot ({s},{f}) reports success but its field does not '
-                    f'solve its own system: {r:.3e} > '
-                    f'{sim.tol_forward * n:.3e}', quantity='residual',
-                    op=kind)
+                    f'solve its own system at all: ||s - A e|| = {r:.3e}, '
+                    f'||s|| = {n:.3e}', quantity='residual', op=kind)
+            if r > 1.5 * sim.tol_forward * n:
+                ctx.stats.probe('success_above_tolerance_(C01)')
             ctx.stats.probe('attribution_residual_checked')
         # responses sampled from that very field
         resp = sim._get_responses(s, f, ef)
